@@ -405,6 +405,7 @@ def _err_kind(e: BaseException) -> str:
 
 def run_case(case, probe_held=False, check_release=False, op_budget=60.0) -> Run:
     """Runs the consumer history of `case` on the real Prefetcher under the virtual scheduler."""
+    import gc
     from torchdata.nodes import Prefetcher
     r = Run()
     sc = case["sched"]
@@ -457,13 +458,25 @@ def run_case(case, probe_held=False, check_release=False, op_budget=60.0) -> Run
                     r.leaks.append(f"{what}: {len(left)} reader thread(s) of abandoned iterators still alive after "
                                    f"{s.clock - t0:.2f} virtual seconds")
 
+            def settle():
+                """after `del node`: an exhausted iterator is kept alive by the StopIteration object that the reader thread
+                still references until it returns; the consumer idles until the iterator has been finalised"""
+                g = instr.gens[-1] if instr.gens else None
+                name = next((n for n, role in g.names.items() if role == "stop"), None) if g else None
+                mark = g.created_at if g else 0
+                for _ in range(60):
+                    gc.collect()
+                    if name is None or any(e[1] == "shut" and e[2] == name for e in s.events[mark:]):
+                        return
+                    s.begin_op()
+                    s.switch(lambda: False, 0.05)
+
             cur_live = {"on": True}
 
             def old_vts():
                 gs = instr.gens if not cur_live["on"] else instr.gens[:-1]
                 return [g.reader_vt for g in gs if g.reader_vt is not None]
 
-            import gc
             gc.collect()
             gc.disable()
             try:
@@ -499,7 +512,7 @@ def run_case(case, probe_held=False, check_release=False, op_budget=60.0) -> Run
                     elif op == "reload":
                         sd = copy.deepcopy(r.sds[-1]) if r.sds else None
                         del node
-                        gc.collect()
+                        settle()
                         src = Src(case["items"], case["term"], delay)
                         r.srcs.append(src)
                         node = Prefetcher(src, prefetch_factor=case["pf"], snapshot_frequency=case["f"])
@@ -514,7 +527,7 @@ def run_case(case, probe_held=False, check_release=False, op_budget=60.0) -> Run
                     elif op == "del":
                         del node
                         node = None
-                        gc.collect()
+                        settle()
                         cur_live["on"] = False
                         r.obs.append(("del",))
                         release_check("del")
@@ -626,3 +639,273 @@ def run_kt(ctx: Ctx, n: Optional[int] = None):
         if nontrivial:
             ctx.sample({"leg": "kt_pf", "case": case, "events": a.get("steps"), "model_actions": a.get("actions"),
                         "timeouts": a.get("tmo"), "max_ahead": a.get("ahead")}, limit=3)
+
+
+# --------------------------------------------------------------------------------------------------------------
+# K-O: oracles on the real threads
+
+
+def check_obs(case, obs) -> List[Tuple[str, str]]:
+    """C04 / C06 / C11 oracle on the observation list of a history: every next() returns the next item of the reference
+    stream of the current lineage (reset -> position 0, reload -> position of the remembered state_dict)."""
+    items, n = case["items"], len(case["items"])
+    term = ("e", "src") if case["term"] == "error" else ("s",)
+    out: List[Tuple[str, str]] = []
+    pos, ended, sd_pos, after_reload = 0, False, None, False
+    gbase, sd_snap = 0, 0
+    oi = 0
+    for op in case["hist"]:
+        if oi >= len(obs):
+            break
+        o = obs[oi]
+        oi += 1
+        if o[0] == "hang":
+            out.append(("C11:hang", f"{op} #{oi} did not return: {o[1]}"))
+            break
+        if op == "next":
+            exp = ("s",) if ended else (("i", items[pos]) if pos < n else term)
+            if tuple(o) != exp:
+                kind = "C06:resume_mismatch" if after_reload else ("C11:wrong_terminal" if (pos >= n or o[0] != "i") else "C04:wrong_item")
+                out.append((kind, f"next() #{oi} at stream position {pos}: expected {exp}, got {tuple(o)}"))
+                break
+            if pos < n and not ended:
+                pos += 1
+            else:
+                ended = True
+        elif op == "sd":
+            # C06: the state is a function of the consumer position only: (base + j*, m - j*), j* = f*floor(m/f)
+            f, m = case["f"], pos - gbase
+            j = f * (m // f) if f > 0 else 0
+            if tuple(o) != ("sd", gbase + j, m - j):
+                out.append(("C06:state_not_consumer_position",
+                            f"state_dict() after {pos} items (generation base {gbase}): expected snapshot position {gbase + j}, "
+                            f"steps {m - j}; got {tuple(o)[1:]}"))
+                break
+            sd_pos, sd_snap = pos, o[1]
+        elif op == "reset":
+            pos, ended, after_reload, gbase = 0, False, False, 0
+        elif op == "reload":
+            if o[0] != "reload":
+                out.append(("C06:reload_failed", f"reset(state_dict) of a fresh node raised {o}"))
+                break
+            pos, ended, after_reload = (sd_pos if sd_pos is not None else 0), False, True
+            gbase = sd_snap if sd_pos is not None else 0
+        elif op == "del":
+            break
+    return out
+
+
+
+def run_c06(case) -> List[Tuple[str, str]]:
+    """C06: state_dict at EVERY consumer position (0 … n+1) of one epoch; each is loaded into a fresh node (fresh source) whose
+    remainder must be the reference remainder.  All under one virtual schedule, the old node still alive meanwhile."""
+    from torchdata.nodes import Prefetcher
+    items, n = case["items"], len(case["items"])
+    term = ("e", "src") if case["term"] == "error" else ("s",)
+    out: List[Tuple[str, str]] = []
+    sc = case["sched"]
+
+    def pull(node, s, k):
+        got = []
+        for _ in range(k):
+            s.begin_op()
+            try:
+                got.append(("i", next(node)))
+            except StopIteration:
+                got.append(("s",))
+            except SrcErr:
+                got.append(("e", "src"))
+        return got
+
+    import gc
+    with Instr():
+        with Session(sc["seed"], adversarial=bool(sc.get("adv")), log=False, op_budget=60.0) as s:
+            gc.collect()
+            gc.disable()
+            try:
+                node = Prefetcher(Src(items, case["term"], 0.0), prefetch_factor=case["pf"], snapshot_frequency=case["f"])
+                s.begin_op()
+                node.reset()
+                sds = [copy.deepcopy(node.state_dict())]
+                for _ in range(n + 1):
+                    pull(node, s, 1)
+                    sds.append(copy.deepcopy(node.state_dict()))
+                for m, sd in enumerate(sds):
+                    node2 = Prefetcher(Src(items, case["term"], 0.0), prefetch_factor=case["pf"], snapshot_frequency=case["f"])
+                    s.begin_op()
+                    node2.reset(copy.deepcopy(sd))
+                    k = min(m, n)
+                    exp = [("i", v) for v in items[k:]] + [term, ("s",)]
+                    got = pull(node2, s, len(exp))
+                    if got != exp:
+                        out.append(("C06:resume_mismatch", f"state_dict after {m} next() calls = {sd}; a fresh node resumed from it "
+                                                          f"yields {got}, expected {exp}"))
+                        break
+                    del node2
+                    gc.collect()
+                node = None
+                gc.collect()
+            except VHang as h:
+                out.append(("C11:hang", f"during the C06 sweep: {h}"))
+            finally:
+                gc.enable()
+    return out
+
+
+# the known C12 defect, deterministic witness: reset() while the reader is inside a source slower than the two joins
+WITNESS_SLOW_RESET = {"pf": 2, "f": 1, "items": [10, 11, 12, 13, 14], "term": "stop",
+                      "hist": ["next", "reset", "next", "next", "next", "next", "next", "next", "next"],
+                      "sched": {"seed": 3, "adv": False}, "delay": 1.5}
+
+SLOW = 1.5   # virtual seconds per next(source): longer than the two 0.5 s joins of Prefetcher.reset()
+
+
+def _ko_job(ctx: Ctx, job):
+    kind, case = job
+    fails: List[Tuple[str, str]] = []
+    if kind == "c06":
+        fails = run_c06(case)
+        ctx.case("ko_pf_c06", case_sig(case), len(case["items"]) >= 2 and case["f"] != 1)
+        ctx.count("ko_pf.c06")
+    else:
+        r = run_case(case, probe_held=True, check_release=True)
+        if r.internal:
+            ctx.note("ko_pf internal: " + r.internal[-300:])
+            ctx.count("ko_pf.internal")
+            return [], case
+        _, stale, _ = translate(r.events, r.gens)
+        ctx.count("ko_pf." + kind)
+        if r.max_inside > 1:
+            fails.append(("C12:two_threads_in_source",
+                          f"{r.max_inside} threads were inside next(source) of the same source node at once: Prefetcher.reset() "
+                          f"gave up joining the old reader (join timeout 0.5 s, twice) and started a new reader"))
+        elif stale:
+            fails.append(("C12:abandoned_reader_drives_source",
+                          "the reader thread of an abandoned iterator pulled from the source after reset() had started a new reader"))
+        if r.max_held > case["pf"]:
+            fails.append(("C12:held_exceeds", r.held_at or f"held {r.max_held} > prefetch_factor {case['pf']}"))
+        if r.idle_held > case["pf"]:
+            fails.append(("C12:held_exceeds", f"outside next(): {r.idle_held} results pulled and not yet returned, prefetch_factor {case['pf']}"))
+        for l in r.leaks:
+            fails.append(("C17:reader_not_released", l))
+        if stale or r.max_inside > 1:
+            ctx.count("ko_pf.stream_checks_skipped_after_known_defect")
+            if r.hang:
+                fails.append(("C11:hang", r.hang))
+        else:
+            fails += check_obs(case, r.obs)
+        nontrivial = r.max_held >= 2 or r.n_timeouts > 0
+        ctx.case("ko_pf", case_sig(case), nontrivial)
+        ctx.count("ko_pf.max_held=%d" % min(r.max_held, 5))
+    return fails, case
+
+
+def run_ko(ctx: Ctx, only: Optional[str] = None, n: Optional[int] = None):
+    """`only`: property id ("C04", …): record only failures of that property (the caller's known-finding classifiers are per
+    property); None records all."""
+    n = n if n is not None else ctx.n(260, 5000)
+    rng = ctx.sub_rng("pf_ko")
+    jobs: List[Tuple[str, Any]] = []
+    for _ in range(n):
+        jobs.append(("rand", gen_case(rng)))
+    for _ in range(max(4, n // 8)):
+        c = gen_case(rng, adv=False)
+        c["hist"] = []
+        jobs.append(("c06", c))
+    # slow sources in virtual time, reset mid-epoch: slower than the two joins (known defect), and faster (must be clean)
+    jobs.append(("slow%.1f" % SLOW, copy.deepcopy(WITNESS_SLOW_RESET)))
+    for d in (SLOW, 0.3):
+        for _ in range(max(4, n // 30)):
+            c = gen_case(rng, adv=False, delay=d)
+            if len(c["items"]) < 3:
+                c["items"] = c["items"] + [rng.randrange(50, 60) for _ in range(3 - len(c["items"]))]
+            nn = len(c["items"])
+            j = rng.randrange(1, nn)
+            c["hist"] = ["next"] * j + ["reset"] + ["next"] * (nn + 2)
+            jobs.append(("slow%.1f" % d, c))
+    outs = ctx.pmap(_ko_job, jobs)
+    for o in outs:
+        if o is None:
+            continue
+        fails, case = o
+        for kind, what in fails:
+            ctx.count("ko_pf.fail." + kind)
+            if only is None or kind.startswith(only + ":"):
+                ctx.fail(kind, case, what)
+
+
+KNOWN = {
+    "reset-while-reader-in-slow-source":
+        lambda f: f.kind in ("C12:two_threads_in_source", "C12:abandoned_reader_drives_source"),
+}
+
+
+def replay(ctx: Ctx, payload) -> Tuple[bool, str]:
+    """re-runs one stored input: a K-T divergence (`leg` = "kt_pf") or an oracle failure (`kind` = "Cxx:…")"""
+    case = payload.get("input", payload.get("case"))
+    if payload.get("leg") == "kt_pf":
+        o = _kt_job(ctx, case)
+        if o is None:
+            return True, "trace not validated (the abandoned reader drove the source: known C12 region)"
+        a = Driver().run([o["req"]])[0]
+        return bool(a and a.get("ok")), str(a)
+    kind = "c06" if not case.get("hist") else "rand"
+    fails, _ = _ko_job(ctx, (kind, case))
+    want = payload.get("kind")
+    hit = [f for f in fails if want is None or f[0] == want]
+    return (not hit), ("; ".join(f"{k}: {w}" for k, w in hit) or "passes")
+
+
+THEOREMS = [
+    "TDV.PF.inv_reachable",
+    "TDV.PF.readahead_bound",
+    "TDV.PF.held_le",
+    "TDV.PF.release_never_overflows",
+    "TDV.PF.delivered_prefix",
+    "TDV.PF.delivered_isPrefix",
+    "TDV.PF.complete",
+    "TDV.PF.stop_only_at_end",
+    "TDV.PF.error_after_prefix",
+    "TDV.PF.terminal_surfaced",
+    "TDV.PF.state_tracks_consumer",
+    "TDV.PF.state_closed_form_everywhere",
+    "TDV.PF.progress",
+    "TDV.PF.variant",
+    "TDV.PF.next_after_end_prompt",
+    "TDV.PF.stop_stable",
+    "TDV.PF.released",
+    "TDV.PF.reader_never_stuck",
+    "TDV.PF.two_drivers_witness",
+    "TDV.PF.single_driver_statement_false",
+    "TDV.PF.single_driver_partial",
+]
+THEOREMS_BY_PROP = {
+    "C04": ["TDV.PF.inv_reachable", "TDV.PF.delivered_prefix", "TDV.PF.delivered_isPrefix", "TDV.PF.complete", "TDV.PF.stop_only_at_end"],
+    "C06": ["TDV.PF.inv_reachable", "TDV.PF.state_tracks_consumer", "TDV.PF.state_closed_form_everywhere"],
+    "C11": ["TDV.PF.error_after_prefix", "TDV.PF.terminal_surfaced", "TDV.PF.progress", "TDV.PF.variant", "TDV.PF.next_after_end_prompt"],
+    "C12": ["TDV.PF.readahead_bound", "TDV.PF.held_le", "TDV.PF.release_never_overflows", "TDV.PF.two_drivers_witness",
+            "TDV.PF.single_driver_statement_false", "TDV.PF.single_driver_partial"],
+    "C17": ["TDV.PF.stop_stable", "TDV.PF.released", "TDV.PF.reader_never_stuck", "TDV.PF.single_driver_partial"],
+}
+RULE = ("cases from one PRNG: prefetch_factor 1-4, snapshot_frequency 0-4, sources of 0-8 ints ending in StopIteration or an exception, "
+        "consumer histories (next, state_dict at every position, exhaustion, extra next() after the end, reset mid-epoch, load into a "
+        "new node, del), schedules: seeded random and adversarial timeouts; slow sources in virtual time (0.3 s and 1.5 s per item) across "
+        "reset(). A validated trace / oracle run is non-trivial when the reader was at least one item ahead of the consumer "
+        "(>= 2 results pulled and not yet processed) or at least one timeout fired; distinct by (configuration, history, schedule).")
+EXPLANATION = ("Lean: TDV.PF is a small-step transition system of reader and consumer of _SingleThreadedMapper/_populate_queue/"
+               "QueueSnapshotStore (one action per shared-object operation + timeout variants) with a generation layer for "
+               "Prefetcher.reset; one invariant proved for every action sequence gives the permit accounting, ordering, completeness and "
+               "the checkpoint closed form; progress/variant give termination of next(); released bounds the reader's exit; "
+               "single_driver is refuted by a decide-checked run and proved when no join gives up. Tie: every event trace of the real "
+               "threads under the virtual scheduler is replayed by the model as an acceptor (payloads, semaphore values, acquire and "
+               "is_set results, popped versions, return values, get_state). Oracles: the same properties measured on the real threads.")
+ASSUMPTIONS = [
+    "threads are interleaved at the granularity of operations on shared objects (queue/semaphore/event/snapshot store/thread "
+    "join/source); the virtual scheduler runs the real code at exactly that granularity",
+    "the source's state_dict after j items is truthy and determines position j; next(source) returns (rLeave is always enabled)",
+    "a timed wait only times out when the resource is unavailable at the deadline (CPython queue.Queue / Semaphore semantics)",
+    "1 <= prefetch_factor for progress (prefetch_factor=0 is accepted by the constructor and can never make progress)",
+    "within one generation the source is driven only by that generation's reader (what single_driver_partial provides); after a "
+    "join gave up the per-generation source view no longer applies and such traces are not validated, the oracle reports them",
+    "get_initial_snapshot's 60 s ACK_TIMEOUT does not expire (the reader is scheduled within 60 s of its start)",
+]
